@@ -197,7 +197,7 @@ unblock_matrix(const Matrix &B) {
 
     const ptrdiff_t nb = backend::rows(B);
 
-#pragma omp for
+#pragma omp parallel for
     for (ptrdiff_t ib = 0; ib < nb; ++ib) {
         auto w = backend::row_nonzeros(B, ib);
         for (ptrdiff_t i = 0, ia = ib * brows; i < brows; ++i, ++ia) {
@@ -208,7 +208,7 @@ unblock_matrix(const Matrix &B) {
     A->scan_row_sizes();
     A->set_nonzeros();
 
-#pragma omp for
+#pragma omp parallel for
     for (ptrdiff_t ib = 0; ib < nb; ++ib) {
         for(auto b = backend::row_begin(B, ib); b; ++b) {
             auto c = b.col();
